@@ -67,6 +67,30 @@ class ArrayPool(OrderedPool):
         return np.array(super().map(f, xs))
 
 
+def run_large13(case):
+    """One large configuration (batches of more than a thousand points, dimension 12): scalar, vectorised and pool-object evaluation under one
+    tape must give the same state after every step and the same evidence; calls = evaluations."""
+    res = Res()
+    cfg = dict(case["cfg"])
+    ref_p, ref_tr = _run(dict(cfg, eval="scalar"), case["base"])
+    res.evals += 1
+    if ref_p.exc is not None:
+        res.bump("aborted_reference_runs")
+        return res
+    _calls_ok(res, "scalar", f"scalar cfg={cfg}", dict(case), ref_tr)
+    for name, c, pool in (("vectorised", dict(cfg, eval="vec"), None), ("ordered-pool", dict(cfg, eval="poolobj"), OrderedPool()), ("array-pool", dict(cfg, eval="poolobj"), ArrayPool())):
+        p, tr = _run(c, case["base"], pool=pool)
+        res.evals += 1
+        res.states += len(tr)
+        res.trans += len(tr)
+        res.traces += 1
+        cc = dict(case, mode=name)
+        _compare(res, name, f"{name} cfg={cfg}", cc, ref_tr, tr, ref_p, p)
+        _calls_ok(res, name, f"{name} cfg={cfg}", cc, tr)
+        res.outcome(("large", name, tuple(sorted((k, repr(v)) for k, v in cfg.items()))), nontrivial=True)
+    return res
+
+
 def _trace_monitor(store):
     def mon(ev):
         p = ev.probe
@@ -251,7 +275,7 @@ def run_realpool(case):
     return res
 
 
-KINDS = {"modes": run_modes, "realpool": run_realpool}
+KINDS = {"large": run_large13, "modes": run_modes, "realpool": run_realpool}
 
 
 def plan(ctx):
@@ -293,3 +317,4 @@ def plan(ctx):
         for clu in (False, True):
             rp.append({"kind": "realpool", "cfg": dict(n_particles=6, d=2, n_total=24, sample=kern, clustering=clu), "base": ctx.seed, "sizes": [1, 2, 3] if th else [1, 2]})
     ctx.explore("real-pools", rp)
+    ctx.explore("large-scopes", [{"kind": "large", "cfg": dict(n_particles=1500, d=12, n_total=3000, clustering=cl, target="gauss", sample=k), "base": ctx.seed} for cl, k in ((False, "tpcn"), (True, "rwm"))])
